@@ -27,6 +27,7 @@ from __future__ import annotations
 
 import itertools
 import json
+import os
 import pickle
 import random
 import re
@@ -165,6 +166,14 @@ def diff_facts(a, b):
     return out
 
 
+def outcome2(model, text, **kw):
+    """outcome(), once more with a long limit when it timed out (a loaded machine is not a disagreement)"""
+    o = outcome(model, text, **kw)
+    if o[0] == 'timeout':
+        o = outcome(model, text, timeout=30.0, **kw)
+    return o
+
+
 def reload_json(m):
     from tatsu.peg import Grammar
     return Grammar.load(json.loads(json.dumps(m.asjson())))
@@ -242,8 +251,10 @@ def check_reload(case):
                     'oleaves': typed_leaves(mo), 'opretty': mo.pretty()}
             expected = [outcome(m, t) for t in inputs]
     except BaseException as e:  # noqa: BLE001
-        res['status'] = 'skip'
-        res['why'] = f'original model unusable: {type(e).__name__}'
+        # the text compiled, but the model cannot be copied / optimized / printed: not a serialization route, still a finding
+        res['status'] = 'fail'
+        res['fails'].append((f'model/unusable-after-compile-{type(e).__name__}', f'm.optimized() / m.pretty() / reading its rules raised {type(e).__name__}: {str(e)[:200]}',
+                             {'grammar': case['text'][:400], 'm': 'tatsu.compile(grammar)', 'then': 'm.optimized(); m.pretty()'}))
         return res
     if any(o[0] == 'timeout' for o in expected):
         res['status'] = 'skip'
@@ -270,6 +281,8 @@ def check_reload(case):
             slug = 'source/one-element-tuple-printed-without-comma'
         elif route == 'source' and has_decorators and (check == 'rule-decorators' or check.startswith('reload-raises-SyntaxError')):
             slug = 'source/decorator-list-printed-without-brackets'
+        elif route == 'source' and via_class == 'start':
+            slug = 'source/generated-parser-class-ignores-start'
         elif route == 'source' and via_class:
             slug = 'source/generated-parser-class-drops-directive-settings'
         else:
@@ -316,14 +329,14 @@ def check_reload(case):
             continue
         bad = None
         for t, o1 in zip(inputs, expected):
-            o2 = outcome(r, t)
+            o2 = outcome2(r, t)
             if o1 != o2:
                 bad = (t, o1, o2, 'model.parse')
                 break
             if parser_cls is not None:
                 try:
                     p = parser_cls()
-                    o3 = outcome(p, t, asmodel=False)
+                    o3 = outcome2(p, t, asmodel=False)
                 except BaseException as e:  # noqa: BLE001
                     o3 = ('exc', type(e).__name__)
                 if o1 != o3:
@@ -334,7 +347,7 @@ def check_reload(case):
             for t in inputs[:12]:
                 o1 = outcome(m, t, start=other)
                 try:
-                    o3 = outcome(parser_cls(), t, asmodel=False, start=other)
+                    o3 = outcome2(parser_cls(), t, asmodel=False, start=other)
                 except BaseException as e:  # noqa: BLE001
                     o3 = ('exc', type(e).__name__)
                 if o1 != o3:
@@ -342,7 +355,7 @@ def check_reload(case):
                     break
         if bad:
             fail(route, 'parse', f'input {bad[0]!r}: original {show(bad[1])} / reloaded ({bad[3]}) {show(bad[2])}', bad[0],
-                 via_class=bad[3].startswith('GenParser'))
+                 via_class='start' if 'start=' in bad[3] else bad[3].startswith('GenParser'))
     if res['fails']:
         res['status'] = 'fail'
     return res
@@ -376,7 +389,7 @@ def check_public_api(case):
         return res
     inputs = atom_inputs(case['s']) if case['group'] == 'atoms' else base_battery()[:40]
     for t in inputs:
-        o1, o2 = outcome(m, t), outcome(p, t, asmodel=False)
+        o1, o2 = outcome2(m, t), outcome2(p, t, asmodel=False)
         res['n_inputs'] += 1
         if o1 != o2:
             w2 = dict(w)
@@ -409,6 +422,9 @@ def _work_a(chunk):
 
 def run_reload(tier, seed):
     cases = model_cases(tier, seed)
+    only = os.environ.get('VERIF_C14_GROUPS')
+    if only:  # development aid: restrict to some case groups
+        cases = [c for c in cases if c['group'] in only.split(',')]
     rng = random.Random(seed)
     api_sample = [dict(c, api=True) for c in rng.sample(cases, min(len(cases), 150 if tier == 'quick' else 600)) if c['group'] != 'files']
     allc = cases + api_sample
